@@ -640,3 +640,57 @@ pub fn check_two_call_history(rng: &mut Rng, st: &mut PiStats) -> Result<(), Str
     }
     Ok(())
 }
+
+
+/// Lifetime history: one long-lived segment is first compared with short-lived disjoint segments (each dropped right
+/// after the call, so that the allocator hands their addresses to the next events), then with a segment that properly
+/// crosses it. Nothing remembered about a dead event may influence the later call.
+pub fn check_lifetime_history(rng: &mut Rng, st: &mut PiStats) -> Result<(), String> {
+    let p = (rng.range(-40, 40) as f64, rng.range(-40, 40) as f64);
+    let d = (rng.range(2, 8) as f64, rng.range(-3, 3) as f64);
+    let k = rng.range(3, 9) as f64;
+    let a: Seg = (p, (p.0 + k * d.0, p.1 + k * d.1));
+    let a_is_subject = rng.below(2) == 0;
+    let (la, _ra) = mk::<f64>(a, a_is_subject, false, 1);
+    let mut q: BinaryHeap<Ev<f64>> = BinaryHeap::new();
+    let n_dead = rng.range(1, 4);
+    for _ in 0..n_dead {
+        // a segment strictly above a (same direction, shifted up), possibly with overlapping bounding boxes
+        let up = rng.range(1, 6) as f64;
+        let j = rng.range(0, k as i64 - 1) as f64;
+        let b: Seg = ((p.0 + j * d.0, p.1 + j * d.1 + up), (p.0 + (j + 1.0) * d.0, p.1 + (j + 1.0) * d.1 + up + rng.range(0, 2) as f64));
+        if seg_rel(norm_seg(a), norm_seg(b)) != Rel::Disjoint {
+            continue;
+        }
+        let (lb, rb) = mk::<f64>(b, rng.below(2) == 0, false, 2);
+        let rc = if rng.below(4) == 0 { possible_intersection(&lb, &la, &mut q) } else { possible_intersection(&la, &lb, &mut q) };
+        if rc != 0 || !q.is_empty() {
+            return Err(format!("disjoint segments {:?} and {:?}: return {} and {} events queued", a, b, rc, q.len()));
+        }
+        drop(lb);
+        drop(rb);
+    }
+    let j = rng.range(1, k as i64 - 1) as f64;
+    let x = (p.0 + j * d.0, p.1 + j * d.1);
+    let mut e = (rng.range(-4, 4) as f64, rng.range(1, 5) as f64);
+    if e.0 * d.1 - e.1 * d.0 == 0.0 {
+        e = (-d.1, d.0);
+    }
+    let c: Seg = ((x.0 - e.0, x.1 - e.1), (x.0 + 2.0 * e.0, x.1 + 2.0 * e.1));
+    if seg_rel(norm_seg(a), norm_seg(c)) != Rel::Cross {
+        return Ok(());
+    }
+    let (lc, _rcc) = mk::<f64>(c, rng.below(2) == 0, false, 3);
+    let rc = possible_intersection(&la, &lc, &mut q);
+    st.followups += 1;
+    bump(st, "lifetime-histories".into());
+    let end_of = |l: &Ev<f64>| l.get_other_event().map(|o| pt(&o));
+    let near = |q: Option<Pt>| q.map(|q| (q.0 - x.0).abs() <= 1e-9 && (q.1 - x.1).abs() <= 1e-9).unwrap_or(false);
+    if rc == 0 || !near(end_of(&la)) || !near(end_of(&lc)) || q.len() != 4 {
+        return Err(format!(
+            "after {} calls with disjoint short-lived segments, the long-lived segment {:?} against the crossing segment {:?}: return {}, ends now at {:?} / {:?}, {} events queued (expected both cut at {:?})",
+            n_dead, a, c, rc, end_of(&la), end_of(&lc), q.len(), x
+        ));
+    }
+    Ok(())
+}
